@@ -76,6 +76,27 @@ pub mod sync {
         unsafe impl<T> Send for Shared<T> {}
         unsafe impl<T> Sync for Shared<T> {}
 
+        /// handle -> shared state.  A RAW pointer on purpose: `Option<Sender<T>>` then has an explicit
+        /// tag instead of the null-pointer niche of a reference, which CBMC cannot fold once the value
+        /// has been moved through a struct copy (measured: `if let Some(tx) = &self.bnd_request_tx`
+        /// explored both arms for a `None`).
+        pub(crate) struct Ptr<T: 'static>(*const Shared<T>);
+        impl<T> Clone for Ptr<T> {
+            fn clone(&self) -> Self {
+                Ptr(self.0)
+            }
+        }
+        impl<T> Copy for Ptr<T> {}
+        unsafe impl<T> Send for Ptr<T> {}
+        unsafe impl<T> Sync for Ptr<T> {}
+        impl<T> core::ops::Deref for Ptr<T> {
+            type Target = Shared<T>;
+            fn deref(&self) -> &Shared<T> {
+                // SAFETY: the state is leaked (never freed) by `channel()`
+                unsafe { &*self.0 }
+            }
+        }
+
         impl<T> Shared<T> {
             fn new(cap: usize) -> &'static Self
             where
@@ -122,12 +143,12 @@ pub mod sync {
         }
 
         // ------------------------------------------------------------ bounded
-        pub struct Sender<T: 'static>(&'static Shared<T>);
-        pub struct Receiver<T: 'static>(&'static Shared<T>);
+        pub struct Sender<T: 'static>(Ptr<T>);
+        pub struct Receiver<T: 'static>(Ptr<T>);
 
         pub fn channel<T: 'static>(buffer: usize) -> (Sender<T>, Receiver<T>) {
             assert!(buffer > 0, "mpsc bounded channel requires buffer > 0");
-            let s = Shared::new(buffer);
+            let s = Ptr(Shared::new(buffer) as *const Shared<T>);
             (Sender(s), Receiver(s))
         }
 
@@ -243,11 +264,11 @@ pub mod sync {
         }
 
         // ------------------------------------------------------------ unbounded
-        pub struct UnboundedSender<T: 'static>(&'static Shared<T>);
-        pub struct UnboundedReceiver<T: 'static>(&'static Shared<T>);
+        pub struct UnboundedSender<T: 'static>(Ptr<T>);
+        pub struct UnboundedReceiver<T: 'static>(Ptr<T>);
 
         pub fn unbounded_channel<T: 'static>() -> (UnboundedSender<T>, UnboundedReceiver<T>) {
-            let s = Shared::new(usize::MAX);
+            let s = Ptr(Shared::new(usize::MAX) as *const Shared<T>);
             (UnboundedSender(s), UnboundedReceiver(s))
         }
         impl<T> UnboundedSender<T> {
@@ -353,7 +374,7 @@ pub mod sync {
             }
         }
 
-        struct State<T> {
+        pub(crate) struct State<T> {
             value: core::mem::MaybeUninit<T>,
             has_value: bool,
             rx_alive: bool,
@@ -369,9 +390,30 @@ pub mod sync {
                 }
             }
         }
-        struct Shared<T>(UnsafeCell<State<T>>);
+        pub(crate) struct Shared<T>(UnsafeCell<State<T>>);
         unsafe impl<T> Send for Shared<T> {}
         unsafe impl<T> Sync for Shared<T> {}
+
+        /// handle -> shared state.  A RAW pointer on purpose: `Option<Sender<T>>` then has an explicit
+        /// tag instead of the null-pointer niche of a reference, which CBMC cannot fold once the value
+        /// has been moved through a struct copy (measured: `if let Some(tx) = &self.bnd_request_tx`
+        /// explored both arms for a `None`).
+        pub(crate) struct Ptr<T: 'static>(*const Shared<T>);
+        impl<T> Clone for Ptr<T> {
+            fn clone(&self) -> Self {
+                Ptr(self.0)
+            }
+        }
+        impl<T> Copy for Ptr<T> {}
+        unsafe impl<T> Send for Ptr<T> {}
+        unsafe impl<T> Sync for Ptr<T> {}
+        impl<T> core::ops::Deref for Ptr<T> {
+            type Target = Shared<T>;
+            fn deref(&self) -> &Shared<T> {
+                // SAFETY: the state is leaked (never freed) by `channel()`
+                unsafe { &*self.0 }
+            }
+        }
         impl<T> Shared<T> {
             #[allow(clippy::mut_from_ref)]
             fn st(&self) -> &mut State<T> {
@@ -379,8 +421,8 @@ pub mod sync {
             }
         }
 
-        pub struct Sender<T: 'static>(&'static Shared<T>);
-        pub struct Receiver<T: 'static>(&'static Shared<T>);
+        pub struct Sender<T: 'static>(Ptr<T>);
+        pub struct Receiver<T: 'static>(Ptr<T>);
 
         pub fn channel<T: 'static>() -> (Sender<T>, Receiver<T>) {
             let s: &'static Shared<T> = Box::leak(Box::new(Shared(UnsafeCell::new(State {
@@ -389,6 +431,7 @@ pub mod sync {
                 rx_alive: true,
                 tx_done: false,
             }))));
+            let s = Ptr(s as *const Shared<T>);
             (Sender(s), Receiver(s))
         }
         impl<T> Sender<T> {
